@@ -181,7 +181,7 @@ def is_logger_call(node):
     if f.attr not in ("debug", "info", "warning", "error", "critical", "exception", "warn"):
         return False
     r = f.value
-    if isinstance(r, ast.Attribute) and r.attr in ("_logger", "logger"):
+    if isinstance(r, ast.Attribute) and r.attr in ("_logger", "logger", "_csv_logger"):
         return True
     if isinstance(r, ast.Name) and r.id in ("logger", "_logger"):
         return True
@@ -382,7 +382,7 @@ class Run:
             return
         q = getattr(self, "qctx", None)
         if q is not None:
-            b = z3.ForAll([q[0]], z3.Implies(q[1], b))
+            b = z3.ForAll(q[0] if isinstance(q[0], list) else [q[0]], z3.Implies(q[1], b))
             self._q_pending.append(b)
         self.pc.append(b)
         self.solver.add(b)
@@ -446,7 +446,7 @@ class Run:
             return
         q = getattr(self, "qctx", None)
         if q is not None:
-            goal = z3.ForAll([q[0]], z3.Implies(q[1], goal))
+            goal = z3.ForAll(q[0] if isinstance(q[0], list) else [q[0]], z3.Implies(q[1], goal))
             key = (name, site, tuple(self.taken))
             if key not in self.v.obligations:
                 self.v.obligations[key] = Obligation(self.v.qname, name, site, self.pc, goal, key, kind)
@@ -596,7 +596,7 @@ class Run:
             return SV(t, T.opt_some(t, self.coerce(v, t.inner).z))
         if isinstance(v.ty, T.Opt) and v.ty.inner == t:
             # implicit unwrap: caller guarantees not None (obligation recorded)
-            self.oblige("type.not_none", z3.Not(T.opt_is_none(v.ty, v.z)), kind="type")
+            self.oblige("type.not_none", z3.Not(T.opt_is_none(v.ty, v.z)), site="line%s" % getattr(self, "cur_line", "?"), kind="type")
             return SV(t, T.opt_get(v.ty, v.z))
         if t == T.REAL and v.ty == T.INT:
             return SV(T.REAL, z3.ToReal(v.z))
@@ -1343,9 +1343,9 @@ class Run:
             if isinstance(v, SV) and isinstance(v.ty, T.Ref) and v.ty.cls:
                 return self.call_method(v, "__len__", [], {})
             raise Reject("len of %r" % (v,))
+        if name in ("min", "max") and len(args) == 1:
+            return self.min_max_over(name, args[0])
         if name in ("min", "max"):
-            if len(args) == 1:
-                raise Reject("min/max over iterable")
             cur = args[0]
             for nxt in args[1:]:
                 if isinstance(cur, SV) and cur.ty in (T.INT, T.REAL) and isinstance(nxt, SV) and nxt.ty in (T.INT, T.REAL):
@@ -1460,6 +1460,47 @@ class Run:
         if name == "print":
             return NONE_SV
         raise Reject("builtin %s" % name)
+
+    def min_max_over(self, name, v):
+        """min(xs) / max(xs) over a list: ValueError when empty, otherwise an element that no other element
+        beats (python returns the first such element; only extremality and membership are modelled)."""
+        if not (isinstance(v, SV) and isinstance(v.ty, T.List)):
+            raise Reject("%s over %r" % (name, v))
+        t = v.ty
+        n = self.heap.c_len(t, v.z)
+        if self.choose(n == 0):
+            raise Raise_("ValueError")
+        r = SV(t.elem, H.fresh(name + "_of", T.sort(t.elem)))
+        k = z3.Int(H.fresh_name("mm_k"))
+        self.assume(z3.And(0 <= k, k < n, self.heap.l_elem(t, v.z, k) == r.z))
+        self.assume_typed(r)
+        j = z3.Int(H.fresh_name("mm_j"))
+        if getattr(self, "qctx", None) is not None:
+            raise Reject("min/max inside comprehension")
+        rng = z3.And(0 <= j, j < n)
+        self.qctx = ([j], rng)
+        self._q_pending = []
+        self.solver.push()
+        self.solver_qf.push()
+        self.solver.add(rng)
+        self.solver_qf.add(rng)
+        old = getattr(self, "no_fork", False)
+        self.no_fork = True
+        try:
+            ej = SV(t.elem, self.heap.l_elem(t, v.z, j))
+            for f in self.type_facts(ej):
+                self.assume(f)
+            beats = self.order("Lt", ej, r) if name == "min" else self.order("Gt", ej, r)
+            self.assume(z3.Not(beats))
+        finally:
+            self.no_fork = old
+            self.qctx = None
+            self.solver.pop()
+            self.solver_qf.pop()
+            for b_ in self._q_pending:
+                self.solver.add(b_)
+            self._q_pending = []
+        return r
 
     def isinstance_(self, v, c):
         if isinstance(c, PyTuple):
@@ -1585,7 +1626,13 @@ class Run:
             if name in ("items", "keys", "values"):
                 return DictView(name, c)
             if name == "get":
-                k = self.key_of(args[0], t.k)
+                a0 = args[0]
+                if isinstance(a0, SV) and isinstance(a0.ty, T.Opt) and not isinstance(t.k, T.Opt):
+                    # None is never a key of a dict whose keys are not Optional
+                    if self.choose(T.opt_is_none(a0.ty, a0.z)):
+                        return args[1] if len(args) > 1 else NONE_SV
+                    a0 = SV(a0.ty.inner, T.opt_get(a0.ty, a0.z))
+                k = self.key_of(a0, t.k)
                 present = hp.d_dom(t, c.z, k)
                 if self.choose(present):
                     return self.assume_typed(SV(t.v, hp.d_val(t, c.z, k)))
@@ -1672,6 +1719,11 @@ class Run:
             body = self.body_of(fdef, None)
             if kind == "property" and len(body) == 1 and isinstance(body[0], ast.Return):
                 c = Contract(qname, inline=True, note="auto-inlined one-line property getter")
+            elif self.depth < 3 and not any(isinstance(n_, (ast.For, ast.While, ast.Try, ast.With, ast.Yield, ast.YieldFrom)) for n_ in ast.walk(fdef)):
+                # a loop-free helper without a contract (e.g. one introduced by a refactoring): execute its
+                # body at the call site instead of giving up; listed in the evidence as inlined
+                c = Contract(qname, inline=True, note="auto-inlined loop-free helper without a contract")
+                self.v.auto_inlined.add(qname)
             else:
                 raise Reject("call of %s: no contract and not declared inline" % qname)
         if c.inline:
@@ -1788,9 +1840,10 @@ class Run:
         mods = c.modifies(cc) if c.modifies else {}
         post = self.heap
         for name, objs in mods.items():
-            old = post.get(name) if name in post.arr or name in post.sorts else None
-            if old is None:
-                raise Reject("modifies of unknown heap array %s (declare via use first)" % name)
+            try:
+                old = post.ensure(name)
+            except KeyError:
+                raise Reject("modifies of unknown heap array %s" % name)
             new = H.fresh("hv_" + name, old.sort())
             if objs is not ANY:
                 r = z3.Int(H.fresh_name("fr_r"))
@@ -1808,7 +1861,8 @@ class Run:
         def fresh_res(prefix, sort_):
             if q is None:
                 return H.fresh(prefix, sort_)
-            return z3.Function(H.fresh_name(prefix), H.I, sort_)(q[0])
+            qv = q[0] if isinstance(q[0], list) else [q[0]]
+            return z3.Function(H.fresh_name(prefix), *([H.I] * len(qv) + [sort_]))(*qv)
 
         if ctor is not None:
             res = SV(ctor.ty, fresh_res("new_" + ctor.short, T.sort(ctor.ty)))
@@ -1842,6 +1896,7 @@ class Run:
 
     def exec_stmt(self, s):
         fr = self.frames[-1]
+        self.cur_line = getattr(s, "lineno", 0)
         c = CONTRACTS.get(fr.qname)
         if is_logger_call(s):
             self.dropped.append(ast.unparse(s)[:80])
@@ -1852,6 +1907,14 @@ class Run:
                 if src.startswith(d):
                     self.dropped.append(src[:80])
                     return
+        if c is not None and getattr(c, "at", None) and self.depth == 0:
+            src = ast.unparse(s)
+            for prefix, fn in c.at.items():
+                if src.startswith(prefix):
+                    cc = Ctx(self.v.entry_args, self.v.pre_heap, self.heap, run=self, alloc0=self.v.alloc_entry)
+                    for nm, g in _named(fn(cc, LoopCtx(None, None, fr.env, fr.env, self.heap, "at")), "at"):
+                        self.oblige("at.%s" % nm, g, site="at:" + prefix[:40], kind="at")
+                    self.v.at_hits.add(prefix)
         m = getattr(self, "st_" + type(s).__name__, None)
         if m is None:
             raise Reject("statement %s" % type(s).__name__)
@@ -2078,7 +2141,7 @@ class Run:
         head_before = self.heap.copy()
         alloc_at_head = self.cur_alloc()
         for name, objs in mods.items():
-            old = self.heap.get(name)
+            old = self.heap.ensure(name)
             new = H.fresh("lh_" + name, old.sort())
             if objs is not ANY:
                 r = z3.Int(H.fresh_name("fr_r"))
@@ -2169,6 +2232,8 @@ class Run:
             x = elem(i)
             if isinstance(x, SV):
                 self.assume_typed(x)
+                if cont is not None and isinstance(cont.ty, T.List):
+                    self.assume(self.heap.l_mem(cont.ty, cont.z, x.z))  # the i-th element is a member
             elif isinstance(x, PyTuple):
                 for y in x.items:
                     self.assume_typed(y)
